@@ -68,6 +68,12 @@ for secs in (1.5,):
     add(f"lag_comfort_poll_{int(secs)}", [["temp", "pool", 24.0], ["mqtt", "/settings/mode", "eco"], ["run", 20], ["mqtt", "/settings/mode", "standby"], ["run", 400], ["mqtt", "/settings/mode", "comfort"], ["run", 8],
         ["lag", "Heating", secs], ["run", 8], ["lag", "Heating", secs], ["run", 120]] + END)
 
+# 8. the DAC of the counter-current pump fails exactly when a wintering stir starts (I2C glitch), for the first writes or for the whole stir
+COLD = {"tank_raw": 1000.0, "cover_rate": 25.0, "ph": 7.6, "orp": 550.0, "start": "2024-01-10T10:00:00"}
+for k, fault in enumerate((3, 6, True)):
+    add(f"dac_fault_at_swim_stir_{k}", [["temp", "air", -5.0], ["temp", "ncc", -5.0], ["mqtt", "/settings/mode", "wintering"], ["run", 10700], ["dac_fault", fault],
+        ["until_state", "Swim", "wintering_stir", 600], ["run", 70], ["dac_fault", False], ["run", 11500]] + END, COLD)
+
 n = 0
 for name, sc in out:
     json.dump(sc, open(os.path.join(VERIF, "corpus", f"hist_{name}.json"), "w"))
